@@ -112,14 +112,36 @@ def work_format_file(src):
     return out
 
 
+# inputs whose validity hangs on layout: tab indentation with ignore comments (a restored tab among expanded neighbours is a TabError),
+# one-line compound statements, form feeds, continuation lines, parenthesised __future__ imports, recursive duplicates
+LAYOUT_SENSITIVE = [
+    "def f(a):\n\tx = 1  # pyrefact: ignore\n\ty = 2\n\treturn x + y\n\n\nprint(f(1))\n",
+    "class K:\n\tdef m(self):\n\t\tv = 1  # pyrefact: ignore\n\t\treturn v\n\n\nprint(K().m())\n",
+    "if True:\n\tx = 1  # pyrefact: ignore\n\tprint(x)\n",
+    "for i in range(2):\n\tif i:  # pyrefact: ignore\n\t\tprint(i)\n\telse:\n\t\tprint(0)\n",
+    "def f(a):\n\ts = 'a\tb'\n\tfor i in a:\n\t\tk = 10\n\t\tprint(i, k, s)\n",
+    "def f(a):\n    a = 1\n    try:\n        b = g()\n    except Exception:\n        raise ValueError('x')\n    return b\n",
+    "def factorial_of_number(n):\n    return n * factorial_of_number(n - 1) if n else 1\n\n\ndef g(n):\n    return n * g(n - 1) if n else 1\n\n\nprint(factorial_of_number(3), g(3))\n",
+    "from __future__ import (\n    annotations,\n)\nprint(os.getcwd())\n",
+    "# comment\nx = 1 + \\\n    2\nprint(os.getcwd(), x)\n",
+    "# license\n\nfrom __future__ import annotations\nprint(os.getcwd())\n",
+    "s = 'a\x0cb'\nprint(os.getcwd(), s)\n",
+    "for x in xs:\n    if x: print(1)\n    else:\n        a()\n        b()\n        c()\n",
+    "for x in xs:\n    if x: print(1); print(2)\n    else:\n        a()\n        b()\n        c()\n",
+    "\x0c\ndef f(xs):\n    for x in xs:\n        y = 100\n        print(x, y)\n",
+    "def f(xs):\n    for x in xs:\n        print(x)\n        y = 100;\n    print(y)  # pyrefact: ignore\n",
+    "try:\n    import yaml\n    import yaml;\nexcept ImportError:  # pyrefact: ignore\n    yaml = None\n",
+]
+
+
 def run(tier, seed, kinds=("invalid",), name_prefix="c03"):
     rnd = random.Random(seed)
     srcs = P.corpus()
     n_rules = 150 if tier == "quick" else len(srcs)
-    rule_in = rnd.sample(srcs, n_rules)
-    fc_in = [(s, True) for s in rnd.sample(srcs, 60 if tier == "quick" else 400)] + [(s, False) for s in P.fragments(srcs, rnd, 20 if tier == "quick" else 120)]
+    rule_in = LAYOUT_SENSITIVE + rnd.sample(srcs, n_rules)
+    fc_in = [(s, True) for s in LAYOUT_SENSITIVE] + [(s, True) for s in rnd.sample(srcs, 60 if tier == "quick" else 400)] + [(s, False) for s in P.fragments(srcs, rnd, 20 if tier == "quick" else 120)]
     sub_in = [(s, patterns_for(s, rnd)) for s in rnd.sample(srcs, 60 if tier == "quick" else 400)]
-    ff_in = rnd.sample(srcs, 24 if tier == "quick" else 150) + ["x = (\n", ""]
+    ff_in = LAYOUT_SENSITIVE + rnd.sample(srcs, 24 if tier == "quick" else 150) + ["x = (\n", ""]
     r_rules = P.pool_map(work_rules, rule_in, chunksize=2)
     r_fc = P.pool_map(work_format_code, fc_in, chunksize=1)
     r_sub = P.pool_map(work_sub, sub_in, chunksize=2)
